@@ -708,7 +708,7 @@ func (e *Exec) applyContract(st *State, call *ast.CallExpr, fi *FuncInfo, ct *Co
 	var out []Term
 	for i := 0; i < sig.Results().Len(); i++ {
 		rt := sig.Results().At(i).Type()
-		v := e.fresh("r_"+fi.Decl.Name.Name, e.sortOf(rt))
+		v := e.fresh("r_"+fi.Decl.Name.Name, e.resultSort(ct, i, rt))
 		e.assumeGlobal(e.rangeFact(v, rt))
 		e.assume(st, e.allocFact(v, rt, na))
 		res = append(res, TV{v, rt})
